@@ -5,6 +5,7 @@ import (
 	"go/constant"
 	"go/token"
 	"go/types"
+	"os"
 	"sort"
 	"strings"
 
@@ -66,13 +67,13 @@ func fieldOf(v ssa.Value) (owner string, field string, base ssa.Value, ok bool) 
 			return
 		}
 		owner = typeShort(pt.Elem())
-		return owner, st.Field(x.Field).Name(), x.X, true
+		return owner, canonField(st.Field(x.Field)), x.X, true
 	case *ssa.Field:
 		st, _ := x.X.Type().Underlying().(*types.Struct)
 		if st == nil {
 			return
 		}
-		return typeShort(x.X.Type()), st.Field(x.Field).Name(), x.X, true
+		return typeShort(x.X.Type()), canonField(st.Field(x.Field)), x.X, true
 	}
 	return
 }
@@ -897,4 +898,195 @@ func (w *World) statusClass(f string) string {
 		}
 	}
 	return ""
+}
+
+func debugAliases() {
+	if os.Getenv("GSVERIF_DEBUG") != "" {
+		for f, a := range fieldAlias {
+			fmt.Fprintln(os.Stderr, "alias", f.Name(), "->", a)
+		}
+	}
+}
+
+// fieldAlias maps a struct field that was recognised by what it is (its type, who writes it) to the name the rules
+// know it by: renaming an unexported field (`minLits` to `costLits`) must not make every rule lose its anchor.
+var fieldAlias = map[*types.Var]string{}
+
+func canonField(f *types.Var) string {
+	if a, ok := fieldAlias[f]; ok {
+		return a
+	}
+	return f.Name()
+}
+
+// resolveFieldAliases recognises the fields the rules name, structurally, and records an alias where the tree calls
+// one of them differently. Only unambiguous recognitions are recorded.
+func (w *World) resolveFieldAliases() {
+	fieldAlias = map[*types.Var]string{}
+	structOf := func(pkg, name string) *types.Struct {
+		n := w.NamedType(pkg, name)
+		if n == nil {
+			return nil
+		}
+		st, _ := n.Underlying().(*types.Struct)
+		return st
+	}
+	// the only field of a given type
+	unique := func(st *types.Struct, typ string, unexportedOnly bool) *types.Var {
+		var hit *types.Var
+		n := 0
+		for i := 0; st != nil && i < st.NumFields(); i++ {
+			f := st.Field(i)
+			if typeShort(f.Type()) == typ && (!unexportedOnly || !f.Exported()) {
+				hit = f
+				n++
+			}
+		}
+		if n == 1 {
+			return hit
+		}
+		return nil
+	}
+	alias := func(f *types.Var, canon string, st *types.Struct) {
+		if f == nil || f.Name() == canon {
+			return
+		}
+		// never shadow a field that really has the canonical name
+		for i := 0; st != nil && i < st.NumFields(); i++ {
+			if st.Field(i).Name() == canon {
+				return
+			}
+		}
+		fieldAlias[f] = canon
+	}
+	solverT, problemT, clauseT, wlT := structOf("solver", "Solver"), structOf("solver", "Problem"), structOf("solver", "Clause"), structOf("solver", "watcherList")
+	xpT := structOf("explain", "Problem")
+	alias(unique(solverT, "solver.Status", false), "status", solverT)
+	alias(unique(solverT, "[]*solver.Clause", false), "reason", solverT)
+	alias(unique(solverT, "[]int", false), "minWeights", solverT)
+	alias(unique(problemT, "[]int", true), "minWeights", problemT)
+	alias(unique(problemT, "[]solver.Lit", true), "minLits", problemT)
+	alias(unique(clauseT, "[]solver.Lit", false), "lits", clauseT)
+	alias(unique(wlT, "[][]*solver.Clause", false), "wlistPb", wlT)
+	alias(unique(xpT, "[]int", true), "units", xpT)
+	alias(unique(xpT, "[]bool", true), "tagged", xpT)
+	// Solver.lastModel: the field of type Model that the exported accessor Model() reads; Solver.model: the other one
+	if solverT != nil {
+		var models []*types.Var
+		for i := 0; i < solverT.NumFields(); i++ {
+			if typeShort(solverT.Field(i).Type()) == "solver.Model" {
+				models = append(models, solverT.Field(i))
+			}
+		}
+		if acc := w.Func("solver", "Solver.Model"); acc != nil && len(models) == 2 {
+			read := map[*types.Var]bool{}
+			allInstrs(acc, func(ins ssa.Instruction) {
+				if fa, ok := ins.(*ssa.FieldAddr); ok {
+					if pt, ok := fa.X.Type().Underlying().(*types.Pointer); ok {
+						if st, ok := pt.Elem().Underlying().(*types.Struct); ok && st == solverT {
+							read[st.Field(fa.Field)] = true
+						}
+					}
+				}
+			})
+			for i, m := range models {
+				if read[m] && !read[models[1-i]] {
+					alias(m, "lastModel", solverT)
+					alias(models[1-i], "model", solverT)
+				}
+			}
+		}
+		// Solver.facts: the []Lit field whose elements Assume reads without ever storing the field itself;
+		// Solver.hypothesis: the []Lit field the optimisation loops store a fresh slice into
+		solverField := func(v ssa.Value) *types.Var {
+			fa, ok := v.(*ssa.FieldAddr)
+			if !ok {
+				return nil
+			}
+			pt, ok := fa.X.Type().Underlying().(*types.Pointer)
+			if !ok {
+				return nil
+			}
+			if st, ok := pt.Elem().Underlying().(*types.Struct); ok && st == solverT && typeShort(st.Field(fa.Field).Type()) == "[]solver.Lit" {
+				return st.Field(fa.Field)
+			}
+			return nil
+		}
+		if as := w.Func("solver", "Solver.Assume"); as != nil {
+			readElems, stored := map[*types.Var]bool{}, map[*types.Var]bool{}
+			allInstrs(as, func(ins ssa.Instruction) {
+				switch x := ins.(type) {
+				case *ssa.IndexAddr:
+					if ld, ok := x.X.(*ssa.UnOp); ok {
+						if f := solverField(ld.X); f != nil {
+							readElems[f] = true
+						}
+					}
+				case *ssa.Store:
+					if f := solverField(x.Addr); f != nil {
+						stored[f] = true
+					}
+				}
+			})
+			var cands []*types.Var
+			for f := range readElems {
+				if !stored[f] {
+					cands = append(cands, f)
+				}
+			}
+			if len(cands) == 1 {
+				alias(cands[0], "facts", solverT)
+			}
+		}
+		if opt := w.Func("solver", "Solver.Optimal"); opt != nil {
+			var cands []*types.Var
+			allInstrs(opt, func(ins ssa.Instruction) {
+				if st, ok := ins.(*ssa.Store); ok {
+					if _, isMk := st.Val.(*ssa.MakeSlice); isMk {
+						if f := solverField(st.Addr); f != nil {
+							cands = append(cands, f)
+						}
+					}
+				}
+			})
+			if len(cands) == 1 {
+				alias(cands[0], "hypothesis", solverT)
+			}
+		}
+		// Solver.minLits: the []Lit field the constructor fills from the problem's cost literals
+		if ctor := w.Func("solver", "New"); ctor != nil && problemT != nil {
+			allInstrs(ctor, func(ins ssa.Instruction) {
+				st, ok := ins.(*ssa.Store)
+				if !ok {
+					return
+				}
+				fa, ok := st.Addr.(*ssa.FieldAddr)
+				if !ok {
+					return
+				}
+				pt, ok := fa.X.Type().Underlying().(*types.Pointer)
+				if !ok {
+					return
+				}
+				sst, ok := pt.Elem().Underlying().(*types.Struct)
+				if !ok || sst != solverT {
+					return
+				}
+				if ld, ok := st.Val.(*ssa.UnOp); ok {
+					if fa2, ok := ld.X.(*ssa.FieldAddr); ok {
+						if pt2, ok := fa2.X.Type().Underlying().(*types.Pointer); ok {
+							if pst, ok := pt2.Elem().Underlying().(*types.Struct); ok && pst == problemT {
+								switch canonField(pst.Field(fa2.Field)) {
+								case "minLits":
+									alias(sst.Field(fa.Field), "minLits", solverT)
+								case "minWeights":
+									alias(sst.Field(fa.Field), "minWeights", solverT)
+								}
+							}
+						}
+					}
+				}
+			})
+		}
+	}
 }
